@@ -66,9 +66,10 @@ type Query struct {
 	Q         *model.Q          `json:"q"`
 	Style     model.RenderStyle `json:"style"`
 	A, B      End
-	Asc       bool `json:"asc,omitempty"`
-	Limit     int  `json:"limit"`
-	WithTotal bool `json:"with_total,omitempty"`
+	Asc       bool   `json:"asc,omitempty"`
+	Limit     int    `json:"limit"`
+	WithTotal bool   `json:"with_total,omitempty"`
+	Interval  uint64 `json:"interval,omitempty"` // histogram bucket, ms (0 = no histogram)
 }
 
 type Case struct {
@@ -248,6 +249,9 @@ func genCase(t *rapid.T) Case {
 			q.Limit = rapid.IntRange(0, total).Draw(t, "limit")
 		}
 		q.WithTotal = rapid.IntRange(0, 3).Draw(t, "withtotal") != 0
+		if rapid.IntRange(0, 3).Draw(t, "hist") == 3 {
+			q.Interval = rapid.SampledFrom([]uint64{60_000, 1000, 3_600_000, 1}).Draw(t, "interval")
+		}
 		c.Queries = append(c.Queries, q)
 	}
 	return c
@@ -432,7 +436,7 @@ func (r *runner) phase(name string) error {
 		if from > to {
 			from, to = to, from
 		}
-		req := model.SearchReq{Q: q.Q, From: from, To: to, Asc: q.Asc, Limit: q.Limit, WithTotal: q.WithTotal}
+		req := model.SearchReq{Q: q.Q, From: from, To: to, Asc: q.Asc, Limit: q.Limit, WithTotal: q.WithTotal, Interval: q.Interval}
 		text := model.RenderSeqQL(q.Q, q.Style)
 		// the pruning predicate itself
 		nt, pruned := false, false
@@ -474,6 +478,9 @@ func (r *runner) phase(name string) error {
 		}
 		if q.WithTotal && qpr.Total != want.Total {
 			return evid.Failf("total-differs", "phase %s query %d %q from=%d to=%d: got %d want %d", name, qi, text, from, to, qpr.Total, want.Total)
+		}
+		if q.Interval > 0 && !harness.EqualHist(harness.HistOf(qpr), want.Hist) {
+			return evid.Failf("hist-differs", "phase %s query %d %q from=%d to=%d interval=%d: got %s want %s", name, qi, text, from, to, q.Interval, harness.FmtHist(harness.HistOf(qpr)), harness.FmtHist(want.Hist))
 		}
 		r.res.Evals++
 		if name == "sealed" {
